@@ -132,6 +132,7 @@ let read_sact () : float sact =
        | "abs" -> SSetTimer (name, TAbs (nflt ()))
        | "rel" -> SSetTimer (name, TRel (nflt ()))
        | t -> failwith ("tspec: " ^ t))
+  | "gotohere" -> ignore (next ()); SGotoHere
   | _ -> SAct (read_action ())
 
 let read_rule () : float rule =
